@@ -66,6 +66,25 @@ def run(ctx):
                 continue
             ctx.check(o.kind == want, "K2.pair", "%s === %s (%s)" % (a, b, cfg), "%s === %s is decided as %s; ECMAScript: %s [%s]" % (a, b, o.kind, want, "; ".join(o.detail.get("rows", []))[:300]), where=f_eq.where(), fn=f_eq.key, nontrivial=True,
                       sample={"pair": "%s,%s" % (a, b), "outcome": o.kind, "cases": o.detail.get("rows")} if a == b else None)
+        # numbers are compared as the doubles they are: nothing in the predicate's own reach reads a JSON number as an
+        # integer (as_i64 / as_u64) or converts a double to an integer (`as i64` saturates: every whole number ≥ 2^63
+        # becomes i64::MAX, so 1e19 === 1e20) — whatever form the comparison itself then takes (seeded C08-Q, C08-P)
+        n_int = 0
+        for bk in sorted(facts.reach([f_eq.key]) - facts.reach([s2n.key])):
+            bb = facts.body(bk)
+            if bb is None or bb.kind not in ("fn", "closure"):
+                continue
+            for bi_, t_ in bb.calls():
+                p_ = callee_path(t_) or ""
+                if re.search(r"^serde_json::Number::(as_i64|as_u64|as_i128|as_u128|is_i64|is_u64)$", p_):
+                    n_int += 1
+                    ctx.fail("K2.numeric-domain", "===|%s|%s" % (bk.split("::", 1)[1], p_.rsplit("::", 1)[1]), "strict equality reads a JSON number as an integer (%s in %s): numbers are compared as the doubles they are (1 === 1.0, and the result must agree with ==)" % (p_, bk.split("::", 1)[1]), where=bb.where(bi_), fn=bb.key)
+            for bi_, si_, st_ in bb.stmts():
+                if st_["k"] == "Assign" and st_["rv"]["k"] == "Cast" and "FloatToInt" in str(st_["rv"].get("kind") or st_["rv"].get("cast") or ""):
+                    n_int += 1
+                    ctx.fail("K2.numeric-domain", "===|%s|float-to-int cast" % bk.split("::", 1)[1], "strict equality converts a double to an integer (%s → %s in %s): the cast saturates, distinct large numbers become equal" % (st_["rv"].get("from"), st_["rv"].get("to"), bk.split("::", 1)[1]), where=bb.where(bi_, si_), fn=bb.key)
+        if not n_int:
+            ctx.ok("K2.numeric-domain", "no integer reading of a number and no float→int cast in the reach of === (%s)" % cfg, nontrivial=True)
         # ---------------- K3
         raw = [callee_path(t) for bb in roles.unit(f_eq.key) for _, t in bb.calls() if re.search(r"^std::ptr::|^core::ptr::", callee_path(t) or "")]
         ctx.check(set(raw) <= {"std::ptr::eq"}, "K3.read-only-pointer", "the predicate's only pointer operation is ptr::eq (%s)" % cfg, "pointer operations: %s" % raw, where=f_eq.where(), fn=f_eq.key)
